@@ -26,7 +26,7 @@ EXPLANATION = (
     'frame = header byte then data bytes in order; R11 several links on one dongle: every instance of the shared radio gets an id that no live instance holds (monotone counter bumped under the lock, or another fresh-id idiom), its own new reply queue registered under that id, the radio thread answers a transmission on the queue of the id that asked for it and the instance returns that answer. The peer\'s half of the protocol and timing are not decided.')
 ASSUMPTIONS = ['the peer implements the matching alternating-bit half (nRF firmware)',
                'the radio dongle reports ack=True only for frames acknowledged by the peer']
-FLOORS = {'R1': 3, 'R2': 2, 'R3': 3, 'R4': 2, 'R5': 3, 'R6': 3, 'R7': 5, 'R8': 6, 'R9': 7, 'R10': 2, 'R11': 6}
+FLOORS = {'R1': 3, 'R2': 2, 'R3': 3, 'R4': 2, 'R5': 3, 'R6': 3, 'R7': 5, 'R8': 7, 'R9': 8, 'R10': 2, 'R11': 6}
 
 
 def is_toggle(value, attr):
@@ -194,6 +194,10 @@ def check(ctx):
     plain = [n for n, c in tx if not method_call(c, '_send_packet_safe')]
     ok = len(safe) == 1 and len(plain) == 1 and fact_key(flag, True) in g.fact_keys_at(safe[0]) and fact_key(flag, False) in g.fact_keys_at(plain[0])
     ctx.inst('R8', run, 'safe-send-gated', ok, 'sequence-numbered transmission exactly when safelink was confirmed')
+    fname = flag.split('.')[-1]
+    outside = ['%s:%d' % (f_.qualname, t_.lineno) for f_ in m.mod(RD).all_funcs() for t_, st_ in stores(f_.node)
+               if isinstance(t_, ast.Attribute) and t_.attr == fname and not (f_.cls is T and f_.name in ('run', '__init__'))]
+    ctx.inst('R8', run, 'safelink-flag-owned-by-thread', not outside, 'the safelink flag is written only by the radio thread itself (constructor: off, start-up negotiation: on); other writers: %s' % (outside or 'none'))
     f0 = [s for s in walk_own(ini.node) if isinstance(s, ast.Assign) and norm(s.targets[0]) == flag]
     ctx.inst('R8', ini, 'safelink-off-initially', len(f0) == 1 and norm(f0[0].value) == 'False', 'safelink is off until negotiated')
     # ---- R9 / R10 ----------------------------------------------------------------------------------
@@ -258,6 +262,12 @@ def check(ctx):
     ctx.inst('R10', run, 'frame=header+data', ok, 'frame = header byte, then each data byte in order (or the null packet 0xFF); appends %s' % app)
     lp = [n for n in g.nodes if n.kind == 'for' and n.id in body]
     ctx.inst('R10', run, 'data-in-order', len(lp) == 1 and norm(lp[0].ast.iter) == 'outPacket.data', 'data bytes are appended in iteration order')
+    # a packet object must always be true: the loops test `if outPacket:` for "is there a packet", a header-only packet has no payload
+    pkc = m.cls('cflib/crtp/crtpstack.py', 'CRTPPacket')
+    sized = [n_ for n_ in ('__len__', '__bool__') if pkc.has(n_)]
+    truth_tests = [n for n in g.nodes if n.kind == 'if' and norm(n.ast.test) == 'outPacket']
+    ctx.inst('R9', run, 'packet-presence-test', not (sized and truth_tests), 'the dequeued packet is tested for presence by truth value while CRTPPacket defines %s: '
+             'a packet without payload would be taken for "no packet" and replaced by a null packet' % (sized or 'neither __len__ nor __bool__'))
     shared_radio_rules(ctx)
 
 
